@@ -93,6 +93,7 @@ static void install_watchdog (int seconds) ;
 
 static bool check_ubsan_soft (const std::string &text, std::string &type_out) ;
 
+static int g_fork_wd = 60 ;		// seconds of CPU time without progress allowed in a forked check
 static ForkOut fork_check (const Profile &prof, const J &plan, int warm = 0, uint64_t warm_seed = 0)
 {	ForkOut out ;
 	char errp [256] ; snprintf (errp, sizeof (errp), "%s/fork.%d.err", g_tmpdir.c_str (), (int) getpid ()) ;
@@ -104,7 +105,7 @@ static ForkOut fork_check (const Profile &prof, const J &plan, int warm = 0, uin
 	{	close (pfd [0]) ;
 		int efd = open (errp, O_WRONLY | O_CREAT | O_TRUNC, 0644) ;
 		if (efd >= 0) { dup2 (efd, 2) ; close (efd) ; }
-		install_watchdog (60) ;
+		install_watchdog (g_fork_wd) ;
 		g_os = new SimOS ;
 		for (int k = 0 ; k < warm ; k++) { J p = prof.gen (warm_seed, 777000 + k) ; prof.check (p) ; }
 		Verdict v = prof.check (plan) ;
@@ -209,8 +210,10 @@ static void classify_death (int exit_code, int sig, const std::string &err, std:
 static volatile int64_t *g_slot = nullptr ;
 static char *g_plan_buf = nullptr ;			// shared with the supervisor: explicit sub-plan currently executing
 static const size_t k_plan_buf = 1 << 18 ;
+static volatile int64_t g_progress = 0 ;		// bumped for every sub-execution of an enumeration profile
 void note_current_plan (const J &plan)
-{	if (!g_plan_buf) return ;
+{	g_progress = g_progress + 1 ;
+	if (!g_plan_buf) return ;
 	if (plan.is_null ()) { g_plan_buf [0] = 0 ; return ; }
 	std::string s = plan.dump () ;
 	if (s.size () + 1 >= k_plan_buf) { g_plan_buf [0] = 0 ; return ; }
@@ -219,15 +222,16 @@ void note_current_plan (const J &plan)
 static int64_t g_wd_last = -2 ;
 static int g_wd_ticks = 0, g_wd_limit = 20 ;
 static void on_alarm (int)
-{	int64_t cur = g_slot ? *g_slot : -1 ;
+{	int64_t cur = (g_slot ? *g_slot : -1) * 1000003 + g_progress ;
 	if (cur == g_wd_last) { if (++ g_wd_ticks >= g_wd_limit) { const char m [] = "SIMDIE code=79 why=watchdog\n" ; if (write (2, m, sizeof (m) - 1) < 0) {} _exit (79) ; } }
 	else { g_wd_last = cur ; g_wd_ticks = 0 ; }
 }
 static void install_watchdog (int seconds)
 {	g_wd_limit = seconds ; g_wd_ticks = 0 ; g_wd_last = -2 ;
-	struct sigaction sa ; memset (&sa, 0, sizeof (sa)) ; sa.sa_handler = on_alarm ; sigaction (SIGALRM, &sa, nullptr) ;
+	struct sigaction sa ; memset (&sa, 0, sizeof (sa)) ; sa.sa_handler = on_alarm ; sigaction (SIGVTALRM, &sa, nullptr) ;
+	// ticks of the process's own CPU time, not of the wall clock: the verdict must not depend on how loaded the machine is
 	struct itimerval it ; it.it_interval.tv_sec = 1 ; it.it_interval.tv_usec = 0 ; it.it_value = it.it_interval ;
-	setitimer (ITIMER_REAL, &it, nullptr) ;
+	setitimer (ITIMER_VIRTUAL, &it, nullptr) ;
 }
 
 // ------------------------------------------------------------------------------------------
@@ -426,7 +430,12 @@ static int cmd_run (const Args &a)
 	{	int64_t idx = d.geti ("idx", -1) ;
 		if (idx < 0) { unconfirmed ++ ; continue ; }
 		J plan = d.has ("subplan") ? d.at ("subplan") : prof->gen (seed, (uint64_t) idx) ;
+		// a worker stopped by the watchdog (30 s of its own CPU time inside one execution) is confirmed with a lower limit, so
+		// that the confirmation cannot come out the other way because of a few percent of timing noise
+		bool wd = d.geti ("exit", 0) == 79 ;
+		if (wd) g_fork_wd = 20 ;
 		ForkOut fo = fork_check (*prof, plan) ;
+		g_fork_wd = 60 ;
 		std::string clause, disc ;
 		if (fo.died)
 		{	classify_death (fo.exit_code, fo.sig, fo.err_text, clause, disc) ;
